@@ -27,7 +27,7 @@ from extract import Source, Rules, ExtractError, mask_source, match_close, split
 REPO = os.environ.get('VERIF_REPO', '/repo')
 SPECS = os.path.join(os.path.dirname(os.path.dirname(os.path.abspath(__file__))), 'specs')
 
-DEFAULT_RULES = {'kani': ['r1', 'r2', 'r3', 'r4'], 'kani-cargo': ['r3'], 'verus': ['r3', 'r8_static']}
+DEFAULT_RULES = {'kani': ['r1', 'r2', 'r3', 'r4', 'r4f'], 'kani-cargo': ['r3'], 'verus': ['r3', 'r8_static']}
 
 
 class Unit:
@@ -273,6 +273,8 @@ def process(unit_name, out_dir, mode='verify'):
             text, loc = src.fn_text(name, impl=kv.get('impl'), trait=kv.get('trait'), with_attrs=('attrs' in pos))
             raw = text
             text = u.rules.apply(text, rules)
+            if 'pub' in pos and not re.match(r'\s*pub\b', text):
+                text = 'pub ' + text
             if 'as' in kv:
                 text = re.sub(r'\bfn\s+%s\b' % re.escape(name), 'fn ' + kv['as'], text, count=1)
             for (pa, rp) in pending_subs:
@@ -305,6 +307,8 @@ def process(unit_name, out_dir, mode='verify'):
                 text = src.text[s:e]
                 raw = text
             text = u.rules.apply(text, [r for r in rules if r in ('r8_static',)])
+            if 'pub' in pos and not re.match(r'\s*pub\b', text):
+                text = 'pub ' + text
             for (pa, rp) in pending_subs:
                 text, n = re.subn(pa, rp, text)
                 if n == 0:
@@ -329,11 +333,17 @@ def process(unit_name, out_dir, mode='verify'):
                     raise ExtractError('%s.%s map: closure parameter %r but sig starts with %r' % (cont, field, pname, first))
             elif ckind in ('default', 'cond', 'assert'):
                 body = '{ ' + code.strip() + ' }'
+                if 'okwrap' in pos:
+                    # the derive evaluates the expression inside a fn returning Result (so `?` propagates)
+                    body = '{ Ok(' + code.strip() + ') }'
+            elif ckind == 'reader':
+                # R5: the call expression of a `reader = "..."` attribute; `deku::reader` is the derive's reader binding
+                body = '{ ' + code.strip().replace('deku::reader', 'reader') + ' }'
             else:
                 raise ExtractError('closure kind %s unsupported' % ckind)
             u.rules.bump('R5')
-            text = 'fn %s%s %s' % (kv['name'], sig, body)
-            text = u.rules.apply(text, [r for r in rules if r in ('r3', 'r4', 'r2')])
+            text = 'pub fn %s%s %s' % (kv['name'], sig, body)
+            text = u.rules.apply(text, [r for r in rules if r in ('r3', 'r4', 'r2', 'r4f')])
             for (pa, rp) in pending_subs:
                 text, n = re.subn(pa, rp, text)
                 if n == 0:
